@@ -66,6 +66,7 @@ fn mem_bound(input_len: usize) -> u64 {
 /// Every public read-side entry point on `x`. Records panics and allocation out of proportion.
 pub fn exercise(tools: &Tools, sub: &str, x: &[u8], rank: u64, case: &dyn Fn() -> Value, acc: &mut Acc) {
     acc.evals += 1;
+    vlib::alloc::set_trace_above(mem_bound(x.len()) as usize);
     let base = vlib::alloc::reset();
     let mut panics: Vec<(&'static str, vlib::report::Panic)> = vec![];
     macro_rules! guard {
@@ -154,9 +155,11 @@ pub fn exercise(tools: &Tools, sub: &str, x: &[u8], rank: u64, case: &dyn Fn() -
         );
     }
     if u.peak > mem_bound(x.len()) || u.max_request > mem_bound(x.len()) {
+        let site = vlib::alloc::big_site().unwrap_or_else(|| "many small allocations".to_string());
         acc.viol(
-            Violation::new(sub, format!("input of {} bytes: peak {} bytes live, largest single request {} bytes (bound {})", x.len(), u.peak, u.max_request, mem_bound(x.len())), case())
+            Violation::new(sub, format!("input of {} bytes: peak {} bytes live, largest single request {} bytes (bound {}); requested from {}", x.len(), u.peak, u.max_request, mem_bound(x.len()), site), case())
                 .sig("clause", "memory-out-of-proportion")
+                .sig("site", site.split(" (").next().unwrap_or("").to_string())
                 .rank(rank),
         );
     }
@@ -444,11 +447,13 @@ pub fn run(ctx: &Ctx) -> i32 {
                 }
                 confirmed.insert(kind.clone());
             }
-            let cause = e.stderr_tail.lines().rev().find(|l| l.contains("memory allocation") || l.contains("overflow") || l.contains("panicked")).unwrap_or("").trim().to_string();
+            let cause = e.stderr_tail.lines().find(|l| l.starts_with("VCHECK-REFUSED")).or_else(|| e.stderr_tail.lines().rev().find(|l| l.contains("memory allocation") || l.contains("overflow") || l.contains("panicked"))).unwrap_or("").trim().to_string();
+            let site = cause.strip_prefix("VCHECK-REFUSED ").and_then(|r| r.split_once(' ')).map(|(_, s)| s.split(" (").next().unwrap_or("").to_string()).unwrap_or_default();
             sub.acc.viol(
                 Violation::new(&s.name, format!("worker {} on case {} ({})", if e.kind == "hang" { "made no progress for 10 s".to_string() } else { format!("died with {}", e.kind) }, e.index, cause), json!({"sweep": s.name, "index": e.index, "replay": "worker-one"}))
                     .sig("clause", if e.kind == "hang" { "no-hang" } else { "no-abort" })
-                    .sig("kind", if cause.contains("memory allocation") { "allocation failure".to_string() } else { e.kind.clone() })
+                    .sig("kind", if cause.contains("memory allocation") || cause.starts_with("VCHECK-REFUSED") { "allocation failure".to_string() } else { e.kind.clone() })
+                    .sig("site", site)
                     .rank(e.index),
             );
         }
